@@ -421,4 +421,9 @@ def demoAcct : Transfer.MAcct :=
     emisDest := 0, migratedFrom := 0, migratedTo := 0, lastUpdate := 5 }
 example : (Transfer.transfer demoAcct 100 7 1 3 false 11 200 12 3 99).isOk = true := by decide
 
+/-! ### the numbers of the property text -/
+
+/-- "at most 8 integration positions and 16 positions overall" -/
+theorem position_limits : Mfi.Gen.MAX_INTEGRATION_POSITIONS = 8 ∧ Mfi.Gen.MAX_LENDING_ACCOUNT_BALANCES = 16 := by decide
+
 end Mfi.Props.C16
